@@ -260,3 +260,59 @@ func famMultiIO(g *genctx, v int) *scen {
 	}
 	return s
 }
+
+// P-pure: methods without an effect mark must not modify the receiver or any
+// buffer reachable through their arguments. The safe form only reads; the
+// near-misses try every route to a store or an impure call that the checker
+// has to close (direct stores, stores through a local alias of an argument or
+// of a field, impure calls in every operand position of an expression).
+func init() {
+	allFamilies = append(allFamilies, family{"P-pure", 12, famPure})
+}
+
+func famPure(g *genctx, v int) *scen {
+	m, buf, cnt, adv := g.n("look"), g.n("pbuf"), g.n("pcnt"), g.n("adv")
+	body := fmt.Sprintf("    if args.s.length() > 0 {\n        r = (args.s[0] as base.u32) ~mod+ (this.%s[1] as base.u32)\n    }", buf)
+	switch v {
+	case 1:
+		body += fmt.Sprintf("\n    this.%s = 1", cnt)
+	case 2:
+		body += "\n    if args.s.length() > 0 {\n        args.s[0] = 0xEE\n    }"
+	case 3: // through a local alias of the argument
+		body += "\n    t = args.s\n    if t.length() > 0 {\n        t[0] = 0xEE\n    }"
+	case 4: // impure call in a slice expression's lower bound
+		body += fmt.Sprintf("\n    r ~mod+= (this.%s[this.%s!() ..].length() & 0xFF) as base.u32", buf, adv)
+	case 5: // ... as an index
+		body += fmt.Sprintf("\n    r ~mod+= this.%s[this.%s!()] as base.u32", buf, adv)
+	case 6: // ... in the upper bound
+		body += fmt.Sprintf("\n    r ~mod+= (this.%s[.. this.%s!()].length() & 0xFF) as base.u32", buf, adv)
+	case 7: // ... as an operand
+		body += fmt.Sprintf("\n    r ~mod+= (this.%s!() as base.u32) ~mod* 3", adv)
+	case 8: // through a local alias of a field
+		body += fmt.Sprintf("\n    t = this.%s[..]\n    if t.length() > 0 {\n        t[0] = 0xEE\n    }", buf)
+	case 9: // a bulk store into the argument
+		body += fmt.Sprintf("\n    args.s.copy_from_slice!(s: this.%s[..])", buf)
+	case 10: // compound assignment to a field
+		body += fmt.Sprintf("\n    this.%s ~mod+= 1", cnt)
+	case 11: // store into an array element of the receiver
+		body += fmt.Sprintf("\n    this.%s[0] = 7", buf)
+	}
+	s := &scen{features: []string{"pure-method", "read-only-views"}}
+	s.fields = []string{buf + " : array[8] base.u8", cnt + " : base.u32"}
+	s.methods = []string{
+		fmt.Sprintf("pri func obj.%s!() base.u8[..= 7] {\n    this.%s ~mod+= 1\n    return (this.%s & 7) as base.u8\n}", adv, cnt, cnt),
+		fmt.Sprintf("pub func obj.%s(s: slice base.u8) base.u32 {\n    var r : base.u32\n    var t : slice base.u8\n%s\n    return r\n}", m, body),
+		fmt.Sprintf("pub func obj.%s!(x: base.u8) {\n    this.%s[1] = args.x\n    this.%s[0] = args.x ~mod+ 1\n}", g.n("pset"), buf, buf),
+		fmt.Sprintf("pub func obj.%s() base.u32 {\n    return this.%s\n}", g.n("getpcnt"), cnt),
+	}
+	s.getters = []string{g.n("getpcnt")}
+	s.drive = func(r *rand.Rand) []Call {
+		var out []Call
+		for i := 0; i < 6; i++ {
+			out = append(out, Call{Method: g.n("pset"), Args: []Arg{iarg(uint64(r.Intn(256)))}})
+			out = append(out, Call{Method: m, Args: []Arg{{Kind: "slice", Slice: randBytes(r, r.Intn(10))}}})
+		}
+		return out
+	}
+	return s
+}
